@@ -725,6 +725,39 @@ func (env *SpecEnv) trCall(e *SExpr) Val {
 			return c.zero(t)
 		}
 		return Val{T: c.zeroOfSort(so, nil), S: so}
+	case "bytes2str":
+		// bytes2str(b): string(b) for a byte slice b (same symbol as the conversion in code)
+		x := env.tr(args[0])
+		fn := "str!of!" + mangle(x.S)
+		c.declFun(fn, []Sort{x.S}, "Str")
+		return Val{T: "(" + fn + " " + x.T + ")", S: "Str"}
+	case "boxv":
+		// boxv(x, "type"): the interface value holding the (non-pointer) value x of the named Go type
+		x := env.tr(args[0])
+		if args[1].Op != "str" {
+			env.fail("boxv needs a type name string")
+		}
+		t := c.eng.lookupNamed(args[1].S)
+		if t == nil {
+			env.fail("boxv: unknown type %s", args[1].S)
+		}
+		bf := "box!" + mangle(x.S)
+		c.declFun(bf, []Sort{x.S}, "Int")
+		return Val{T: fmt.Sprintf("(mkI %d (%s %s))", c.eng.typeTag(t), bf, x.T), S: "Iface"}
+	case "strs":
+		// strs(a, b, ...): the []string value a variadic call site builds from these arguments
+		so := c.sliceSortOf("Str")
+		arr := c.constArr("Int", "Str", c.strLit(""))
+		for i, a := range args {
+			v := env.tr(a)
+			env.want(v, "Str", a)
+			arr = store(arr, fmt.Sprint(i), v.T)
+		}
+		isnil := "false"
+		if len(args) == 0 {
+			isnil = "true"
+		}
+		return Val{T: mkSl(so, "0", fmt.Sprint(len(args)), arr, isnil), S: so}
 	case "allocated":
 		// allocated(r): the reference r denotes an object that exists in the state the expression is evaluated in
 		x := env.tr(args[0])
